@@ -73,8 +73,12 @@ func (ur *usageTracker) NewReport(serviceName, version, hostname string, now tim
 	if err != nil {
 		return nil, err
 	}
-	// clear the current data points and keep the last data points until we know the report was sent
-	ur.lastDataPoints = ur.currentDataPoints
+	// clear the current data points and keep everything that has been put in a
+	// report until we know a report was sent: if an earlier report failed, its
+	// data points are still unsent and must not be forgotten.
+	for signal, usage := range ur.currentDataPoints {
+		ur.lastDataPoints[signal] += usage
+	}
 	ur.currentDataPoints = make(map[usageSignal]float64)
 	return data, nil
 }
